@@ -263,6 +263,10 @@ func (w *feWalker) walk(st *feState) {
 					continue
 				}
 				callee := x.Common().StaticCallee()
+				var dynClosure *ssa.MakeClosure
+				if callee == nil && !x.Common().IsInvoke() {
+					callee, dynClosure = w.resolveCallee(st, x.Common().Value, 0)
+				}
 				if callee == nil || callee.Blocks == nil {
 					continue
 				}
@@ -281,7 +285,11 @@ func (w *feWalker) walk(st *feState) {
 						st.bind[prm] = fc.Args[i]
 					}
 				}
-				if mc, ok := x.Common().Value.(*ssa.MakeClosure); ok {
+				mc, ok := x.Common().Value.(*ssa.MakeClosure)
+				if !ok && dynClosure != nil {
+					mc, ok = dynClosure, true
+				}
+				if ok {
 					for i, fv := range callee.FreeVars {
 						if i < len(mc.Bindings) {
 							st.bind[fv] = w.evalVal(st, mc.Bindings[i])
@@ -764,7 +772,61 @@ func (w *feWalker) constTableLookup(st *feState, lk *ssa.Lookup) (val constant.V
 		}
 		return nil, false, true
 	}
+	if w.P.presenceOnly[g][k.ExactString()] {
+		return nil, true, true // present, value is not a constant
+	}
 	return e, true, true
+}
+
+// resolveCallee: the function a dynamic call invokes, when the called value is a
+// function value the path determines: an element of a constant function table looked
+// up with a known key, a function or closure value bound on the path.
+func (w *feWalker) resolveCallee(st *feState, v ssa.Value, depth int) (*ssa.Function, *ssa.MakeClosure) {
+	if v == nil || depth > 4 {
+		return nil, nil
+	}
+	switch x := v.(type) {
+	case *ssa.Function:
+		return x, nil
+	case *ssa.MakeClosure:
+		if f, ok := x.Fn.(*ssa.Function); ok {
+			return f, x
+		}
+	case *ssa.Extract:
+		if lk, ok := x.Tuple.(*ssa.Lookup); ok && x.Index == 0 {
+			return w.funcTableLookup(st, lk), nil
+		}
+	case *ssa.Lookup:
+		if !x.CommaOk {
+			return w.funcTableLookup(st, x), nil
+		}
+	}
+	if rv := w.evalVal(st, v).V; rv != nil && rv != v {
+		return w.resolveCallee(st, rv, depth+1)
+	}
+	return nil, nil
+}
+
+func (w *feWalker) funcTableLookup(st *feState, lk *ssa.Lookup) *ssa.Function {
+	if w.P == nil {
+		w.P = curProg
+	}
+	u, isLoad := lk.X.(*ssa.UnOp)
+	if !isLoad || w.P == nil {
+		return nil
+	}
+	g, isG := u.X.(*ssa.Global)
+	if !isG || g.Pkg == nil {
+		return nil
+	}
+	k, kok := w.eval(st, lk.Index)
+	if !kok {
+		return nil
+	}
+	if ft := w.P.funcTable(g); ft != nil {
+		return ft[k.ExactString()]
+	}
+	return nil
 }
 
 // curProg is the program currently analysed (set by runProps); walkers use it for constant tables.
